@@ -495,8 +495,12 @@ ASMJIT_FAVOR_SIZE Error init_func_detail(FuncDetail& func, const FuncSignature& 
 
             // Passed via stack if the argument is float/double or indirectly. The trap is - if the argument is
             // passed indirectly, the address can be passed via register, if the argument's index has GP one.
+            //
+            // A stack slot is always 8 bytes (float/double/pointer) and it's only consumed by arguments that are passed
+            // by stack - arguments passed by registers have their home in the spill zone, which was already accounted.
             if (TypeUtils::is_float(type_id)) {
               arg.assign_stack_offset(int32_t(stack_offset));
+              stack_offset += 8;
             }
             else {
               uint32_t gp_reg_id = cc._passed_order[RegGroup::kGp].id[arg_index];
@@ -505,12 +509,10 @@ ASMJIT_FAVOR_SIZE Error init_func_detail(FuncDetail& func, const FuncSignature& 
               }
               else {
                 arg.assign_stack_offset(int32_t(stack_offset));
+                stack_offset += 8;
               }
               arg.add_flags(FuncValue::kFlagIsIndirect);
             }
-
-            // Always 8 bytes (float/double/pointer).
-            stack_offset += 8;
             continue;
           }
         }
